@@ -258,6 +258,34 @@ theorem C07_witness_ccitt_g4_is_a_stub :
   simp only [Nat.reduceAdd, Nat.reduceDiv, Nat.reduceMul, Nat.reduceGT, if_true]
   rw [if_pos (by omega)]
 
+/-! ## 5d. LZWDecode -/
+
+/- FULL: lzwDec L ec (lzwEnc ec clearAt b) = .ok b   for both EarlyChange values, every Clear policy,
+   every byte string.  NOT PROVED (bit packing, dictionary lag incl. KwKwK, synchronised width
+   schedule were not reached in the time box) — the correspondence run covers it (docs/C07.md).
+   What is proved: whenever the LZW stage itself round-trips on the predictor-encoded rows, the
+   predictor post-processing of `apply_filter_with_params` returns the image. -/
+theorem C07_lzw_png_compose_partial (E : Ext) (enc : List Nat → List Nat) (pred columns colors bpc : Nat) (d : Dict)
+    (hpd : d.predictor = .int pred) (hp : 10 ≤ pred ∧ pred ≤ 15)
+    (hc : d.columns = .int columns) (hk : d.colors = .int colors) (hb : d.bpc = .int bpc)
+    (hpos : 0 < rowBytes columns colors bpc) (hfit : columns * colors * bpc + 7 < two64)
+    (types : List Nat) (ht : ∀ t ∈ types, t ≤ 4) (k : Nat) (data : List Nat)
+    (hl : data.length = k * rowBytes columns colors bpc) (hbytes : Bytes data)
+    (hlzw : lzwDec maxDecompressedSize (earlyChange (some d))
+      (enc (pngEnc (rowBytes columns colors bpc) (pngBpp colors bpc) types data)) =
+        .ok (pngEnc (rowBytes columns colors bpc) (pngBpp colors bpc) types data)) :
+    applyFilterWithParams E (enc (pngEnc (rowBytes columns colors bpc) (pngBpp colors bpc) types data)) .lzw (some d)
+      = .ok data := by
+  have hpr := C07_png_predictor_roundtrip pred columns colors bpc d hp hc hk hb hpos hfit types ht k data hl hbytes
+  have hu : asU32 (pred : Int) = pred := asU32_ofNat pred (by unfold two32; omega)
+  unfold applyFilterWithParams
+  simp only [hlzw, hpd, PVal.asInt, Res.bind, hu, hpr]
+
+example : applyFilterWithParams ⟨fun _ => .ext 1, fun _ => .ext 1⟩ (lzwEnc true 4096 (pngEnc 2 1 [1] [7, 7])) .lzw
+    (some { predictor := .int 11, columns := .int 2, colors := .int 1, bpc := .int 8 }) = .ok [7, 7] :=
+  C07_lzw_png_compose_partial _ (lzwEnc true 4096) 11 2 1 8 _ rfl (by decide) rfl rfl rfl (by decide) (by decide) [1]
+    (by decide) 1 [7, 7] (by decide) (by decide) (by decide +kernel)
+
 /-! ## 6. Filter chains -/
 
 theorem applyFilter_noPredictor (E : Ext) (data : List Nat) (f : FName) (p : Option Dict) (hp : NoPredictor p)
